@@ -357,7 +357,11 @@ func CompareResult(op Op, exp Expect, got Result) (sig, detail string) {
 		return "accepted-batch-that-must-be-rejected:" + op.Kind, fmt.Sprintf("%s: model rejects (%s) but the shard reported success", op.Name, exp.Why)
 	}
 	if !exp.Reject && got.Err != nil {
-		return "rejected-valid-batch:" + op.Kind, fmt.Sprintf("%s: shard returned error %v", op.Name, got.Err)
+		msg := got.Err.Error()
+		if i := strings.LastIndex(msg, ": "); i >= 0 {
+			msg = msg[i+2:]
+		}
+		return "rejected-valid-batch:" + op.Kind + ":" + msg, fmt.Sprintf("%s: shard returned error %v", op.Name, got.Err)
 	}
 	if exp.Reject {
 		return "", ""
